@@ -1463,7 +1463,7 @@ def plan(tier, seed):
     cells = (f'{sh} x value classes {VCLASSES} (a C-order ramp with the largest sample marking corner [0,0]; seeded amplitude) '
              f'x NaN patterns {NANPATS} (degenerate shape/pattern pairs dropped)' + dts)
     # size thresholds (writers / readers that stream or convert in blocks of 2^16 .. 2^20 samples): not closed over sizes
-    lg_shapes = [[300, 301], [700, 600], [1500, 300]] + ([[1030, 1031]] if tier == 'quick' else [[1030, 1031], [2, 60000], [2100, 1000]]   # axis lengths stay below 65536: the binary format stores them in 16-bit fields)
+    lg_shapes = [[300, 301], [700, 600], [1500, 300]] + ([[1030, 1031]] if tier == 'quick' else [[1030, 1031], [2, 60000], [2100, 1000]])   # axis lengths stay below 65536: the binary format stores them in 16-bit fields
     large = []
     for shp in lg_shapes:
         for v, pat in (('mixed', 'corner'), ('neg', 'checker')):
